@@ -364,7 +364,7 @@ def c12(tier, replay=None):
         plans = [("d-host2", ["word", "apos", "ml"], ["bare", "sq", "tdq", "text"], ["sp", "eol"], ["eof", "eol", "cmt"], 2)]
     else:
         # every palette value in every presentation next to each defect (one host item), the interacting values in pairs,
-        # three host items for the position-dependent defects; each plan stratified down to 60 000 documents
+        # three host items for the position-dependent defects; each plan stratified down to 30 000 documents
         plans = [("d-host1", sorted(PALETTE), ALLPRES, ["sp", "eol", "cmt"], ["eof", "eol", "cmt"], 1),
                  ("d-host2", ["word", "apos", "ml", "unk", "semi", "bslend"], ["bare", "sq", "tdq", "text", "textpf"], ["sp", "eol"], ["eof", "eol", "cmt"], 2),
                  ("d-host3", ["word", "apos", "ml"], ["bare", "sq", "text"], ["sp", "eol"], ["eof"], 3)]
@@ -398,7 +398,7 @@ def c12(tier, replay=None):
         tstates += int(m.group(2)); ttrans += int(m.group(1))
         docs = [o for tag, o in iter_tlc_json(out, ("DEFECT",))]
         cleanup(wd)
-        cap = 8000 if tier == "quick" else 60000
+        cap = 8000 if tier == "quick" else 30000
         if len(docs) > cap:
             # keep every class represented
             byc = collections.defaultdict(list)
